@@ -147,6 +147,8 @@ def case_strategy(draw, max_depth):
             if o[0] == "DEFAULT":
                 o[1], o[2] = "'dv'", "'dv'"
     return {"type": ty, "opts": opts, "pos": draw(st.sampled_from(["first", "mid", "last", "only"])),
+            # an earlier column whose double-quoted option value holds an apostrophe (BigQuery style): an apostrophe inside double quotes opens nothing
+            "apos": draw(st.integers(0, 5)) == 0,
             "after": draw(st.sampled_from(AFTER)), "layout": draw(gen.layout(max_len=40)), "norm": draw(st.integers(0, 2)) == 0,
             # the type text does not depend on the output mode; hql (which also reports the column COMMENT) is drawn most often
             "mode": draw(st.sampled_from(["hql", "hql", "hql"] + MODES))}
@@ -205,6 +207,8 @@ class C09(Prop):
         # neighbours: one sized (p,s) column before b, an unsized and a sized one after it
         a, c, d = [I("a"), T("decimal"), LP, N(10), COMMA, N(2), RP], [I("c"), T("text")], [I("d"), T("varchar"), LP, N(5), RP]
         cols = {"first": [b, c, d], "mid": [a, b, c], "last": [a, c, b], "only": [b]}[case["pos"]]
+        if case.get("apos"):
+            cols = [[I("q0"), T("int"), ("OPTIONS", "K"), LP, I("description"), ("=", "O"), L('"it\'s a q"'), RP]] + cols
         toks = K("CREATE", "TABLE") + [I("t")] + plist(cols)
         if case["after"]:
             for w in case["after"].split(" "):
@@ -239,6 +243,8 @@ class C09(Prop):
         # no delimited identifier is written: normalize_names must not change anything (brackets of [] suffixes are not delimiters)
         norm = bool(case.get("norm"))
         out.label("normalize_names=%s" % norm)
+        if case.get("apos"):
+            out.label("apostrophe-in-double-quoted-value-before")
         mode = case.get("mode", "hql")
         out.label("mode:" + mode)
         r = loader.try_parse(ddl, output_mode=mode, normalize_names=norm)
